@@ -61,7 +61,7 @@ def mat(b, fn, with_map=True, keep_raw=None):
         return {"raised": True, "exc": "unusable return value: " + type(ex).__name__}
 
 
-def observe_hg(b, obj, rng, tensor=False):
+def observe_hg(b, obj, rng, tensor=False, dual=True):
     import hypergraphx.linalg.linalg as L
     st = b.state(obj)
     c = {"kind": "hg", "st": st}
@@ -72,12 +72,13 @@ def observe_hg(b, obj, rng, tensor=False):
                     else (lambda: L.incidence_matrix(obj, return_mapping=True)))
     c["adj"] = mat(b, (lambda: obj.adjacency_matrix(return_mapping=True)) if not via
                    else (lambda: L.adjacency_matrix(obj, return_mapping=True)))
-    dual = mat(b, (lambda: obj.dual_random_walk_adjacency(return_mapping=True)) if via
-               else (lambda: L.dual_random_walk_adjacency(obj, return_mapping=True)))
-    dual.pop("map", None)         # the node mapping says nothing about a hyperedge x hyperedge matrix
-    c["dual"] = dual
-    with quiet():
-        c["edges"] = [b.from_api(e) for e in obj.get_edges()]
+    if dual:                      # hyperedge x hyperedge: not logged for the hub inputs (300 x 300)
+        dm = mat(b, (lambda: obj.dual_random_walk_adjacency(return_mapping=True)) if via
+                 else (lambda: L.dual_random_walk_adjacency(obj, return_mapping=True)))
+        dm.pop("map", None)       # the node mapping says nothing about a hyperedge x hyperedge matrix
+        c["dual"] = dm
+        with quiet():
+            c["edges"] = [b.from_api(e) for e in obj.get_edges()]
     sizes = [len(e["k"]["s"]) for e in st["edges"]]
     if not st["wtd"]:
         top = max(sizes) if sizes else 1
@@ -288,13 +289,162 @@ def build_temp(b, n, recs, weighted, rng):
 
 
 # ---------------------------------------------------------------------------
+# hubs: a node in >= 256 hyperedges of one order, two nodes sharing >= 256 hyperedges (counts beyond one byte), on
+# few nodes so that the node x node matrices stay small
+def hub_labels(fam, n, rng):
+    if fam == "ident":
+        return list(range(1, n + 1))
+    if fam == "zero":
+        return list(range(n))
+    if fam == "sparse":
+        return rng.sample(range(2, 900), n)
+    names = ["%s%02d" % (rng.choice("abcxyz"), i) for i in range(n)]
+    rng.shuffle(names)
+    return names
+
+
+def hub_inputs(tier, rng):
+    """(shape, n, edges, weighted, family)"""
+    out = []
+    for i in range(4 if tier == "quick" else 16):
+        shape = ("node_in_many_triangles", "node_in_many_4sets", "pair_in_many_hyperedges", "pair_in_many_hyperedges")[i % 4]
+        if shape == "node_in_many_triangles":       # node 1 in m >= 256 hyperedges of order 2
+            n = rng.randint(25, 30)
+            m = rng.randint(256, min(300, (n - 1) * (n - 2) // 2))
+            es = [(1,) + p for p in rng.sample(list(itertools.combinations(range(2, n + 1), 2)), m)]
+            es += random_edges(n, rng, m=4)         # a few others of any size
+        elif shape == "node_in_many_4sets":         # node 1 in m >= 256 hyperedges of order 3
+            n = rng.randint(14, 16)
+            m = rng.randint(256, 286)
+            es = [(1,) + p for p in rng.sample(list(itertools.combinations(range(2, n + 1), 3)), m)]
+            es += random_edges(n, rng, m=4)
+        else:                                       # nodes 1, 2 together in >= 256 hyperedges of order 3, ~300 in all
+            n = rng.randint(26, 30)
+            es = [(1, 2, j) for j in range(3, n + 1)]
+            quads = list(itertools.combinations(range(3, n + 1), 2))
+            es += [(1, 2) + p for p in rng.sample(quads, rng.randint(256, min(len(quads), 330 - len(es))))]
+            es += [(1, 2)]
+        out.append((shape, n, sorted(set(es)), shape.startswith("pair") and i % 8 == 3, FAMS[(i + i // 4) % 4]))
+    return out
+
+
+# re-observation: all matrices of ONE object are observed, then the same object is changed in a way that keeps its
+# numbers of nodes and of hyperedges, and everything is observed again (each observation is an ordinary case)
+def present(b, obj):
+    st = b.state(obj)
+    return st, set(st["nodes"]), [(tuple(e["k"]["s"]), e["k"]["x"]) for e in st["edges"]]
+
+
+def mutate_same_counts(b, obj, universe, rng, temporal=False, times=(0,)):
+    """one change of obj that leaves num_nodes() and num_edges() as they were; returns its description (or None)"""
+    st, nodes, recs = present(b, obj)
+    used = {x for e, _ in recs for x in e}
+    isolated = sorted(nodes - used)
+    absent = [i for i in universe if i not in nodes]
+    ways = []
+    if recs:
+        ways += ["replace_hyperedge"] * 3
+    if isolated and absent:
+        ways += ["swap_isolated_node"] * 2
+    if not ways:
+        return None
+    how = rng.choice(ways)
+    kw = {"weight": rng.randint(1, 4)} if st["wtd"] else {}
+    with quiet():
+        if how == "swap_isolated_node":
+            x, y = rng.choice(isolated), rng.choice(absent)
+            obj.remove_node(b.lab(x))
+            obj.add_node(b.lab(y))
+            return {"how": how, "removed_node": x, "added_node": y}
+        old = rng.choice(recs)
+        pool = sorted(nodes)
+        cands = [(c, t) for z in range(1, min(len(pool), 4) + 1) for c in itertools.combinations(pool, z)
+                 for t in times if (c, t) not in recs]
+        if not cands:
+            return None
+        # mostly over nodes that keep a hyperedge, so that no node appears or disappears with the change
+        keep = {x for r in recs if r != old for x in r[0]} | set(isolated)
+        inside = [ct for ct in cands if set(ct[0]) <= keep and set(old[0]) <= keep | set(ct[0])]
+        new = rng.choice(inside if inside and rng.random() < 0.8 else cands)
+        if temporal:
+            obj.remove_edge(b._tuple(old[0]), old[1])
+            obj.add_edge(b._tuple(new[0]), new[1], **kw)
+            return {"how": how, "removed": [list(old[0]), old[1]], "added": [list(new[0]), new[1]]}
+        obj.remove_edge(b._tuple(old[0]))
+        obj.add_edge(b._tuple(new[0]), **kw)
+        return {"how": how, "removed": list(old[0]), "added": list(new[0])}
+
+
+def reobs_inputs(tier, rng):
+    out = []
+    for i in range(36 if tier == "quick" else 900):
+        n = rng.randint(3, 6)
+        out.append((n, random_edges(n, rng, m=rng.randint(1, 7), maxsize=4), i % 3 == 0, FAMS[i % 4]))
+    return out
+
+
+def reobs_temp_inputs(tier, rng):
+    return [it for it in temp_inputs(tier, rng)][:24 if tier == "quick" else 600]
+
+
+def _reobserve(kind, it, rng):
+    """-> cases, descriptions: first observation, then two rounds of (change keeping both counts, observation)"""
+    temporal = kind == "tempre"
+    n, es, weighted, fam = it
+    b = Binding("temp" if temporal else "hg", LABEL_FAMILIES[fam](n + 1), rng)   # one label more than used at first
+    universe = range(1, n + 2)
+    if temporal:
+        obj = build_temp(b, n, es, weighted, rng)
+        times = sorted({t for _, t in es})
+    else:
+        obj = build_hg(b, n, es, weighted, rng, all_nodes=None)
+        times = (0,)
+    cs, ds, history = [], [], []
+    for step in range(3):
+        if step:
+            with quiet():
+                before = (obj.num_nodes(), obj.num_edges())
+            try:
+                h = mutate_same_counts(b, obj, universe, rng, temporal=temporal, times=times)
+            except Exception as ex:     # the harness only issues valid calls: a raising one shows in the next observation
+                h = {"how": "raised", "exc": type(ex).__name__ + ": " + str(ex)[:80]}
+            if h is None:
+                break
+            with quiet():
+                h["counts_kept"] = (obj.num_nodes(), obj.num_edges()) == before
+            history = history + [h]
+        c = observe_temp(b, obj, rng) if temporal else observe_hg(b, obj, rng)
+        _, _, recs = present(b, obj)
+        cs.append(c)
+        ds.append({"kind": "temp" if temporal else "hg", "n": len(c["st"]["nodes"]),
+                   "hyperedges": [[list(e), t] for e, t in recs] if temporal else [list(e) for e, _ in recs],
+                   "weighted": weighted, "family": fam, "labels": b.labels, "built_from": [list(x) for x in es],
+                   "changes_of_the_same_object_before_this_observation": history})
+    return cs, ds
+
+
 def _observe_chunk(job):
     """build and observe a slice of the inputs; input number i uses its own generator derived from (seed, i)"""
     kind, seed, start, items = job
     cs, ds = [], []
     for off, it in enumerate(items):
         rng = random.Random((seed * 1000003 + start + off) * 2 + (kind == "temp"))
-        if kind == "hg":
+        if kind in ("hgre", "tempre", "hub"):
+            rng = random.Random("%s/%d/%d" % (kind, seed, start + off))
+        if kind in ("hgre", "tempre"):
+            c2, d2 = _reobserve(kind, it, rng)
+            for d in d2:
+                d["input_no"] = start + off
+            cs += c2
+            ds += d2
+        elif kind == "hub":
+            shape, n, es, weighted, fam = it
+            b = Binding("hg", hub_labels(fam, n, rng), rng)
+            obj = build_hg(b, n, es, weighted, rng, all_nodes=True, churn=False)
+            cs.append(observe_hg(b, obj, rng, dual=False))
+            ds.append({"kind": "hg", "n": n, "hyperedges": [list(e) for e in es], "weighted": weighted, "hub": shape,
+                       "family": fam, "labels": b.labels, "input_no": start + off})
+        elif kind == "hg":
             n, es, weighted, fam, all_nodes, tensor = it
             b = Binding("hg", LABEL_FAMILIES[fam](n), rng)
             obj = build_hg(b, n, es, weighted, rng, all_nodes=all_nodes)
@@ -332,14 +482,15 @@ def run(tier, seed):
     rng = random.Random(seed)
     hin, tin = hg_inputs(tier, rng), temp_inputs(tier, rng)
     agg = {"cases": 0, "mats": 0, "states": 0, "t_py": 0.0, "t_tlc": 0.0, "hgs": set(), "temporal": 0, "tensor": 0,
-           "weighted": 0, "fams": set()}
+           "weighted": 0, "fams": set(), "reobs": 0, "reobs_kept": 0, "hubs": 0, "hub_max": 0}
     pool = None
     if tier != "quick":
         import multiprocessing as mp
         pool = mp.get_context("fork").Pool(12)
     try:
         # rounds bound the memory: observe a slice (in parallel), validate it, keep only rejections and samples
-        for kind, items in (("hg", hin), ("temp", tin)):
+        for kind, items in (("hg", hin), ("temp", tin), ("hgre", reobs_inputs(tier, rng)),
+                            ("tempre", reobs_temp_inputs(tier, rng)), ("hub", hub_inputs(tier, rng))):
             for start in range(0, len(items), ROUND):
                 _round(res, kind, seed, start, items[start:start + ROUND], pool, agg)
         # non-integer weights (quarters), weighted incidence only
@@ -372,11 +523,19 @@ def run(tier, seed):
             distinct_hypergraphs=len(agg["hgs"]), temporal_hypergraphs=agg["temporal"], tensor_cases=agg["tensor"],
             weighted_cases=agg["weighted"], label_families=len(agg["fams"]),
             exhaustive_4_nodes=(tier == "thorough"),
+            observations_after_a_change_of_the_same_object=agg["reobs"],
+            of_which_with_unchanged_node_and_hyperedge_counts=agg["reobs_kept"],
+            hub_inputs=agg["hubs"], largest_expected_matrix_entry=agg["hub_max"],
             python_wall_s=round(agg["t_py"], 1), validator_wall_s=round(agg["t_tlc"], 1))
     res.assume("returned matrices are densified by the harness; every entry must be an integral number (checked in Python) and is compared as an integer by TLC",
                "the Laplacian carries no mapping: its rows are read through the mapping returned by adjacency_matrix_by_order for the same order (the statement's identity L = d*D - A is entrywise)",
                "hyperedge numbering of the dual adjacency: listing order of get_edges(); any other consistent numbering is accepted for <= 6 hyperedges",
                "per-order variants, degree matrix and Laplacians are exercised on unweighted hypergraphs only (as the statement says); laplacian_matrices_all_orders only when there is a hyperedge",
+               "hub inputs (a node in >= 256 hyperedges of one order, two nodes together in >= 256 hyperedges, 14-30 nodes): everything "
+               "but the hyperedge x hyperedge dual adjacency is observed",
+               "re-observation: after all matrices of an object were returned, the same object is changed by valid calls (one hyperedge "
+               "replaced by another, an isolated node replaced by a new label) and observed again; every observation is judged against "
+               "the abstract state read through the public API at that moment",
                "temporal: a time without hyperedges may be absent from the result; the mapping at time t may cover any node set between the nodes alive at t and all nodes",
                "thorough: all 128 hypergraphs on 3 nodes under 4 label families and all 32768 hypergraphs on 4 nodes (label family by rotation); quick: the 128 on 3 nodes and a seeded sample on 4; larger ones are seeded samples")
     return res.finish()
@@ -387,41 +546,61 @@ ROUND = 6000
 
 def _round(res, kind, seed, start, items, pool, agg):
     t0 = time.time()
+    tkind = "temp" if kind in ("temp", "tempre") else "hg"
     jobs = [(kind, seed, start + i, items[i:i + 250]) for i in range(0, len(items), 250)]
     outs = pool.map(_observe_chunk, jobs, chunksize=1) if pool is not None else [_observe_chunk(j) for j in jobs]
     cases = [c for cs, _ in outs for c in cs]
     descr = [d for _, ds in outs for d in ds]
     agg["t_py"] += time.time() - t0
     t0 = time.time()
-    v = K.run_cases("Trace_C09", cases, {"Kind": kind}, procs=14, per_batch=min(450, max(10, len(cases) // 14 + 1)))
+    v = K.run_cases("Trace_C09", cases, {"Kind": tkind}, procs=14,
+                    per_batch=1 if kind == "hub" else min(450, max(10, len(cases) // 14 + 1)))
     agg["t_tlc"] += time.time() - t0
     for idx, failed in v["rejects"]:
         d = descr[idx]
         raised = sorted({r.get("exc", "") for r in _records(cases[idx]) if r.get("raised")})
+        hist = d.get("changes_of_the_same_object_before_this_observation")
+        shown = d["hyperedges"] if "hub" not in d else "%s (%d hyperedges, listed in the replay payload)" % (d["hub"], len(d["hyperedges"]))
         res.reject({"clauses": failed, "labels": d["family"] if d["family"] == "zero" else "other"},
-                   "%s disagree(s) with Matrices.tla for the %s%s hypergraph %s on %d nodes labelled %s%s"
+                   "%s disagree(s) with Matrices.tla for the %s%s hypergraph %s on %d nodes labelled %s%s%s"
                    % (",".join(failed), "weighted " if d["weighted"] else "", "temporal" if d["kind"] == "temp" else "",
-                      d["hyperedges"], d["n"], d["labels"], (" [raised: %s]" % "; ".join(raised)) if raised else ""),
+                      shown, d["n"], d["labels"], (" [raised: %s]" % "; ".join(raised)) if raised else "",
+                      (" [same object observed before, then changed: %s]" % hist) if hist else ""),
                    {"case": d, "seed": seed, "logged": strip(cases[idx]), "state": cases[idx]["st"]})
     for c, d in zip(cases, descr):
         bad = nonint(c)
         if bad:
             res.reject({"clauses": ["integer_entries"], "matrices": bad},
-                       "non-integral entries in %s for hypergraph %s (labels %s)" % (bad, d["hyperedges"], d["labels"]),
+                       "non-integral entries in %s for hypergraph %s (labels %s)"
+                       % (bad, d["hyperedges"] if "hub" not in d else d["hub"], d["labels"]),
                        {"case": d, "seed": seed, "logged": strip(c)})
     agg["cases"] += len(cases)
     agg["mats"] += sum(len(list(_records(c))) for c in cases)
     agg["states"] += v["states"]
     agg["fams"] |= {d["family"] for d in descr}
-    if kind == "hg":
+    for d in descr:
+        hist = d.get("changes_of_the_same_object_before_this_observation")
+        if hist:
+            agg["reobs"] += 1
+            agg["reobs_kept"] += 1 if hist[-1].get("counts_kept") else 0
+    if kind == "hub":
+        agg["hubs"] += len(cases)
+        for c in cases:
+            for r in [c["adj"]] + [x["lap"] for x in c.get("byorder", [])]:
+                if "M" in r:
+                    agg["hub_max"] = max([agg["hub_max"]] + [abs(x) for row in r["M"] for x in row])
+    if tkind == "hg":
         agg["hgs"] |= {(d["n"], str(d["hyperedges"])) for d in descr}
         agg["tensor"] += sum(1 for c in cases if "tensor" in c)
         agg["weighted"] += sum(1 for d in descr if d["weighted"])
         c = cases[len(cases) // 2]
-        res.sample({"input": descr[len(cases) // 2], "adjacency": c["adj"], "binary_incidence": c["binc"]}, cap=3)
+        if kind == "hg":
+            res.sample({"input": descr[len(cases) // 2], "adjacency": c["adj"], "binary_incidence": c["binc"]}, cap=3)
+        elif kind == "hgre":
+            res.sample({"input": descr[-1], "adjacency": cases[-1]["adj"], "binary_incidence": cases[-1]["binc"]}, cap=6)
     else:
         agg["temporal"] += len(cases)
-        res.sample({"input": descr[-1], "temporal_adjacency": cases[-1]["tadj"]}, cap=4)
+        res.sample({"input": descr[-1], "temporal_adjacency": cases[-1]["tadj"]}, cap=4 if kind == "temp" else 6)
 
 
 def _records(c):
